@@ -786,10 +786,12 @@ def _reparent_children(tt, old_parent, new_parent):
 
 
 def _reparent_transform_children(tt, old_parent, new_parent):
-    by_parent = tt.by_parent()
-    for child in by_parent[old_parent]:
+    # An earlier resolver of the same pass may already have moved the last
+    # child away, in which case old_parent is not a known parent any more.
+    children = tt.by_parent().get(old_parent, set())
+    for child in children:
         tt.adjust_path(tt.final_name(child), new_parent, child)
-    return by_parent[old_parent]
+    return children
 
 
 def new_by_entry(path, tt, entry, parent_id, tree):
@@ -972,7 +974,10 @@ def _alter_files(
                     basis_inter = InterTree.get(basis_tree, working_tree)
                     basis_path = basis_inter.find_source_path(wt_path)
                     if basis_path is None:
-                        if target_kind is None and not target_versioned:
+                        # Not in the basis: this content was never committed.
+                        # Keep it when the file is merely being unversioned,
+                        # and back it up when the target replaces it.
+                        if backups or (target_kind is None and not target_versioned):
                             keep_content = True
                     else:
                         if wt_sha1 != basis_tree.get_file_sha1(basis_path):
@@ -1125,7 +1130,10 @@ def resolve_duplicate(tt, path_tree, c_type, last_trans_id, trans_id, name):
         _reparent_transform_children(tt, existing_file, new_file)
         tt.delete_contents(existing_file)
         tt.unversion_file(existing_file)
-        tt.cancel_creation(existing_file)
+        if tt.new_contents(existing_file):
+            # only a directory created by this transform has a creation to
+            # cancel; one that is already in the tree is deleted above.
+            tt.cancel_creation(existing_file)
     else:
         new_name = tt.final_name(existing_file) + ".moved"
         tt.adjust_path(new_name, final_parent, existing_file)
@@ -1150,6 +1158,12 @@ def resolve_parent_loop(tt, path_tree, c_type, cur):
     # break the loop by undoing one of the ops that caused the loop
     while not tt.path_changed(cur):
         cur = tt.final_parent(cur)
+    if tt.tree_path(cur) is None:
+        # cur was created by this transform: there is no earlier location to
+        # move it back to.  A loop that also involves entries of the tree is
+        # broken when those are handled; a loop made of new entries only is
+        # left alone and ends up reported as a MalformedTransform.
+        return
     yield (
         c_type,
         "Cancelled move",
@@ -1242,7 +1256,12 @@ def resolve_unversioned_parent(tt, path_tree, c_type, trans_id):
     if path_tree and path_tree.path2id("") == file_id:
         # This is the root entry, skip it
         return
-    tt.version_file(trans_id, file_id=file_id)
+    if file_id is None:
+        # The directory never had a file id (an unversioned directory of the
+        # tree, or one created by this transform): give it a fresh identity.
+        tt.version_file(trans_id, source=(tt._tree, tt.tree_path(trans_id)))
+    else:
+        tt.version_file(trans_id, file_id=file_id)
     yield (c_type, "Versioned directory", trans_id)
 
 
@@ -1266,13 +1285,22 @@ def resolve_non_directory_parent(tt, path_tree, c_type, parent_id):
     # TODO(jelmer): Make this code transform-specific
     if tt._tree.supports_setting_file_ids():
         parent_file_id = tt.final_file_id(parent_id)
+        if parent_file_id is not None:
+            # Release the file id before handing it to the new directory: an
+            # id scheduled by this transform is only given up by
+            # cancel_versioning(), one inherited from the tree by
+            # unversion_file().
+            if parent_id in tt._new_id:
+                tt.cancel_versioning(parent_id)
+            if tt.final_file_id(parent_id) is not None:
+                tt.unversion_file(parent_id)
     else:
         parent_file_id = b"DUMMY"
     new_parent_id = tt.new_directory(
         parent_name + ".new", parent_parent, parent_file_id
     )
     _reparent_transform_children(tt, parent_id, new_parent_id)
-    if parent_file_id is not None:
+    if parent_file_id is not None and not tt._tree.supports_setting_file_ids():
         tt.unversion_file(parent_id)
     yield (c_type, "Created directory", new_parent_id)
 
@@ -1495,6 +1523,13 @@ class PreviewTree:
                     final_name = self._transform.final_name(child)
                     self._final_name_cache[child] = final_name
                 if final_name == cur_segment:
+                    if self._transform.final_kind(
+                        child
+                    ) is None and not self._transform.final_is_versioned(child):
+                        # Nothing is left of this entry (deleted and
+                        # unversioned); another trans_id may provide the
+                        # path now.
+                        continue
                     cur_parent = child
                     break
             else:
